@@ -52,7 +52,9 @@ void Curve::append_cubic(const Vec2 p0, const Vec2 p1, const Vec2 p2, const Vec2
             if (curvature < GDSTK_PARALLEL_EPS) {
                 dt = 1.0;
             } else {
-                double angle = 2 * acos(1 - curvature * tolerance);
+                // The tolerance may exceed twice the radius of curvature: keep the argument in the domain of acos
+                const double cos_half = 1 - curvature * tolerance;
+                double angle = 2 * (cos_half < -1 ? M_PI : acos(cos_half));
                 dt = angle / (curvature * len_dc);
             }
         }
@@ -103,7 +105,9 @@ void Curve::append_quad(const Vec2 p0, const Vec2 p1, const Vec2 p2) {
             if (curvature < GDSTK_PARALLEL_EPS) {
                 dt = 1.0;
             } else {
-                double angle = 2 * acos(1 - curvature * tolerance);
+                // The tolerance may exceed twice the radius of curvature: keep the argument in the domain of acos
+                const double cos_half = 1 - curvature * tolerance;
+                double angle = 2 * (cos_half < -1 ? M_PI : acos(cos_half));
                 dt = angle / (curvature * len_dc);
             }
         }
@@ -168,7 +172,9 @@ void Curve::append_bezier(const Array<Vec2> ctrl) {
             if (curvature < GDSTK_PARALLEL_EPS) {
                 dt = 1.0;
             } else {
-                double angle = 2 * acos(1 - curvature * tolerance);
+                // The tolerance may exceed twice the radius of curvature: keep the argument in the domain of acos
+                const double cos_half = 1 - curvature * tolerance;
+                double angle = 2 * (cos_half < -1 ? M_PI : acos(cos_half));
                 dt = angle / (curvature * len_dc);
             }
         }
